@@ -363,6 +363,9 @@ def scenarios(thorough):
         # two cleaners, the winner cleans up and drops while the other is still trying
         S.append(Scenario("race2-drop-" + u, [("g", ["create", "exit"]), ("c0", ["clean", "cdrop"]), ("c1", ["clean", "cdrop"])],
                           prelude=[("g", 2)], priv=priv, bound=2, snapshot=True, max_execs=20000 if thorough else 150))
+        # a third party queries while a cleaner holds the resources: CleaningUp, the three files exist
+        S.append(Scenario("hold-vs-monitor-" + u, [("g", ["create", "exit"]), ("c", ["clean"]), ("m", ["state"])],
+                          prelude=[("g", 2), ("c", 1)], priv=priv, bound=0))
         # winner abandons (node cleanup failure path): the other may re-acquire
         S.append(Scenario("race2-abandon-" + u, [("g", ["create", "exit"]), ("c0", ["clean", "cabandon"]), ("c1", ["clean", "cdrop"])],
                           prelude=[("g", 2)], priv=priv, bound=2 if thorough else 1, snapshot=True))
@@ -408,31 +411,93 @@ def witnesses():
     return W
 
 
+# Recorded findings.  The driver prints class=N1/N2/N4/F3 ONLY when the exact preconditions of the recorded finding are
+# verified on the observed calls of that execution (ocaml/c07/driver.ml, "oracle preconditions"):
+#  F3 (fixed a8f7c5d): state() = Dead while the guard process lives AND the monitor's open(state) preceded the guard drop's
+#      remove(state) AND the guard drop's close(state) preceded the monitor's F_GETLK(state).
+#  N1: ProcessCleaner::new = Ok by B, nobody holding, an earlier winner W that released through cdrop (not abandon / kill)
+#      AND B's open(owner_lock) and open(state) preceded W's remove of them AND W's drop close(owner_lock) preceded B's
+#      successful F_SETLK(owner_lock).
+#  N2: a process was killed inside StateFiles::drop after ITS remove(state) and before ITS remove(context) AND the residue
+#      after a survivor's state/clean/cdrop/state round contains context and no state file AND the last verdict is CleaningUp.
+#  N4: the process H holding the ProcessCleaner closed an owner_lock descriptor outside its drop/abandon (its own state() /
+#      new() query) AND afterwards: H's own query returned != CleaningUp, or another process' F_SETLK(owner_lock) succeeded
+#      (two owners), or a third party saw != CleaningUp / removed files while H holds.
+#  NOTE-STARTING (part of N2's record, reported as a note): killed inside ProcessGuard creation after creating context and
+#      before its final chmod 0400; residue contains ctx:0200; last verdict Starting.
+# Every other spec mismatch (class=UNKEYED-...) is reported WITHOUT a key, i.e. it can never match a known finding.
 VIOLATION_KEYS = {
     "F3": ("procstate:dead-verdict-in-shutdown-window",
            "ProcessMonitor::state() returns Dead for a process that is alive and merely inside its orderly ProcessGuard drop "
            "(monitor opened the state file, guard removed + closed it, monitor's F_GETLK sees no lock)"),
-    "TWO-OWNERS": ("procstate:own-state-query-releases-cleaner-lock",
-                   "two processes own a ProcessCleaner for the same path at the same time (the first owner called state() in-process, "
-                   "closing a second owner_lock descriptor drops its fcntl lock; PROCESS_STATE_TRACKING has no entry for a cleaner)"),
-    "SECOND-WINNER": ("procstate:second-cleaner-on-unlinked-owner-lock",
-                      "a second ProcessCleaner::new returns Ok (on the already unlinked owner_lock) after the first winner completed its cleanup"),
-    "UNCOLLECTABLE-CLEANINGUP": ("procstate:crash-inside-drop-leaves-uncollectable-residue",
-                                 "a guard or cleaner killed inside StateFiles::drop after remove(state) leaves context(+owner_lock): state() = CleaningUp "
-                                 "and ProcessCleaner::new = ProcessIsBeingCleanedUpOrCrashedDuringCleanup for ever, the residue is uncollectable"),
-    "RECLAIM": ("procstate:cleaner-acquired-on-live-process", "ProcessCleaner::new returned Ok while the guarded process is alive"),
-    "NEW": ("procstate:wrong-verdict", "a liveness verdict contradicts the property"),
-    "ONEWINNER": ("procstate:not-exactly-one-winner", "racing cleaners on a dead process: not exactly one returned Ok"),
+    "N4": ("procstate:own-state-query-releases-cleaner-lock",
+           "the owner of a ProcessCleaner queried state() in-process: closing its second owner_lock descriptor drops its fcntl lock "
+           "(PROCESS_STATE_TRACKING has no entry for a cleaner)"),
+    "N1": ("procstate:second-cleaner-on-unlinked-owner-lock",
+           "a second ProcessCleaner::new returns Ok (on the already unlinked owner_lock) after the first winner completed its cleanup"),
+    "N2": ("procstate:crash-inside-drop-leaves-uncollectable-residue",
+           "a guard or cleaner killed inside StateFiles::drop after remove(state) leaves context(+owner_lock): state() = CleaningUp "
+           "and ProcessCleaner::new = ProcessIsBeingCleanedUpOrCrashedDuringCleanup for ever, the residue is uncollectable"),
 }
 
 
 def classify(line):
-    for k in ("F3", "TWO-OWNERS", "SECOND-WINNER", "UNCOLLECTABLE-CLEANINGUP", "UNCOLLECTABLE-STARTING", "RECLAIM", "NEW"):
-        if "class=" + k in line:
-            return k
-    if "racing cleaners" in line:
-        return "ONEWINNER"
-    return "NEW"
+    """-> ("key", class) for a recorded finding whose preconditions the driver verified, ("note", ..) or ("unkeyed", class)"""
+    m = line.split("class=", 1)
+    cls = m[1].split()[0] if len(m) > 1 else "UNKEYED-UNCLASSIFIED"
+    if cls in VIOLATION_KEYS:
+        return "key", cls
+    if cls == "NOTE-STARTING":
+        return "note", cls
+    return "unkeyed", cls
+
+
+def oracle_selftest(results):
+    """the same symptoms WITHOUT the recorded preconditions (observed executions with one call edited out) must come out
+    unkeyed: [(description, expected class, forbidden class, case text)]"""
+    def block(prefix):
+        for r in results:
+            if r["scenario"].name.startswith(prefix) and r["blocks"]:
+                return list(r["blocks"][0])
+        return None
+    tests = []
+    b = block("N4-own-state")
+    if b:     # two owners although the first owner never queried state(): drop p1's state op
+        keep, in_state = [], False
+        for l in b:
+            f = l.split()
+            if f[0] == "R" and f[1] == "1" and f[2] == "clean":
+                in_state = True
+                keep.append(l)
+                continue
+            if in_state and f[0] in ("E", "R") and f[1] == "1":
+                continue
+            keep.append(l)
+        keep[0] = keep[0].replace("create,exit|clean,state|clean", "create,exit|clean|clean")
+        tests.append(("two owners without the owner's own query", "UNKEYED-TWO-OWNERS", "class=N4", keep))
+    b = block("N1-second")
+    if b:     # second winner although the first winner never removed owner_lock
+        tests.append(("second winner without the first winner's remove(owner_lock)", "UNKEYED-SECOND-WINNER", "class=N1",
+                      [l for l in b if not (l.startswith("E 1 owner remove") or l.startswith("E 2 owner remove"))]))
+    b = block("kill-guard@14-user")
+    if b:     # CleaningUp residue although the killed process had not removed the state file in its drop
+        tests.append(("CleaningUp residue without remove(state) by the killed process", "UNKEYED-RESIDUE", "class=N2",
+                      [l for l in b if not l.startswith("E 0 state remove")]))
+    b = block("hold-vs-monitor-user")
+    if b:
+        tests.append(("third party sees Dead while a cleaner holds (no own query)", "UNKEYED-VERDICT-UNDER-CLEANER", "class=N4",
+                      [l.replace("R 2 state CleaningUp", "R 2 state Dead") for l in b]))
+        k = [i for i, l in enumerate(b) if l.startswith("R 2 state")]
+        if k:
+            tests.append(("a state() query removes a file while a cleaner holds", "UNKEYED-QUERY-MUTATES", "class=N",
+                          b[:k[0]] + ["E 2 state remove - 0 0"] + b[k[0]:]))
+    bad = []
+    for what, want, forbid, lines in tests:
+        rc, out = run_driver("\n".join(lines) + "\n")
+        spec = [l for l in out.split("\n") if l.startswith("MISMATCH") and "kind=spec" in l]
+        if not any("class=" + want in l for l in spec) or any(forbid in l for l in spec):
+            bad.append({"variation": what, "expected_class": want, "spec_lines": spec[:5]})
+    return len(tests), bad
 
 
 def block_of(res, case_no):
@@ -524,17 +589,26 @@ def run_tie(ctx, tdir, proof_ok):
         n = m[0]["scenario"].name
         return (0 if n[:2] in ("N1", "N4", "F3") else 1 if n.startswith("kill-guard@14-user") else 2, n, m[1])
     spec_mm.sort(key=prio)
-    seen_keys = set()
-    for res, case_no, line in spec_mm:
-        cls = classify(line)
-        if cls == "UNCOLLECTABLE-STARTING":
+    seen_keys, seen_unkeyed = set(), set()
+    for res, case_no, line in spec_mm:          # ALL spec lines are looked at (no cap); keyed and unkeyed are independent
+        kind, cls = classify(line)
+        if kind == "note":
             notes.append(line)
-            continue
-        key, what = VIOLATION_KEYS[cls]
-        if key in seen_keys:
-            continue
-        seen_keys.add(key)
-        ctx.violation(what + " -- " + line.split("] ", 1)[-1], replay_obj(res, case_no, line), key=key)
+        elif kind == "key":
+            key, what = VIOLATION_KEYS[cls]
+            if key not in seen_keys:
+                seen_keys.add(key)
+                ctx.violation(what + " -- " + line.split("] ", 1)[-1], replay_obj(res, case_no, line), key=key)
+        else:
+            tag = (cls, res["scenario"].name.split("@")[0])
+            if tag not in seen_unkeyed and len(seen_unkeyed) < 8:
+                seen_unkeyed.add(tag)
+                ctx.violation("the implementation's observations contradict the property (not a recorded finding): " + line.split("] ", 1)[-1],
+                              replay_obj(res, case_no, line), key=None)
+    ntests, bad = oracle_selftest(results)
+    ctx.cov["oracle_selftest_variations"] = ntests
+    if bad or ntests < 5:
+        ctx.violation("oracle self-test: a symptom without the recorded preconditions was not reported unkeyed", {"failed": bad, "ran": ntests}, no_input=True)
     if model_mm:
         res, case_no, line = model_mm[0]
         ctx.violation("trace correspondence model<->implementation broken (first diverging call below): " + line,
